@@ -655,6 +655,7 @@ def rule_OR2_responder(ctx, tier):
         rr.fail("bd:not-recorded", "trackers confirmed in the disconnected block are not added to the reorged set", where=bd.span)
     wd = _must(ctx, rr, W_BD, [TXI + "remove_disconnected_block"], "Watcher::block_disconnected")
     _atomic_store_of(ctx, rr, wd, "last_known_block_height", (3, 1), "Watcher::block_disconnected")
+    _storable_statuses(ctx, rr)
     rr.require_floor(37, "OR2r instances")
     return rr
 
@@ -683,6 +684,62 @@ def _reject_or_update(ctx, rr, b, label):
             rr.ok("%s: any other verdict -> update_tracker_status" % label)
         elif label == "rb":
             rr.fail("%s:status-not-persisted" % label, "a re-submitted tracker whose verdict is not Rejected can go to the next one without `update_tracker_status`: the database keeps `InMempoolSince(old height)`, so it is re-sent on every block from now on and its confirmation count is never restarted", where=b.line_of(sw))
+
+
+def _storable_statuses(ctx, rr):
+    """a tracker status that is written to the database is one the database can hold.  `ConfirmationStatus::to_db_data`
+    answers None for the verdicts that are not states of a live tracker (IrrevocablyResolved, Rejected), DBM::update_tracker_status
+    turns that into Err(MissingField), and every caller unwraps it holding the carrier and database locks on the chain thread.
+    So at every store site the variants the status can still be -- what its producer can return, minus what the branches on the
+    way excluded -- must all be storable."""
+    P = ctx.prog
+    tdd = P.bodies.get("teos::responder::ConfirmationStatus::to_db_data")
+    st = P.bodies.get(CARRIER + "send_transaction")
+    adt = P.adts.get("teos::responder::ConfirmationStatus")
+    if tdd is None or st is None or not adt:
+        rr.anchor_missing("ConfirmationStatus::to_db_data / Carrier::send_transaction")
+        return
+    allv = {v["name"] for v in adt["variants"]}
+    storable = set()
+    for bb in tdd.rpo():
+        for s_ in tdd.blocks[bb]["s"]:
+            if s_["k"] == "assign" and s_["d"] == [0] and s_["rv"].get("k") == "agg" and s_["rv"].get("variant") == "Some":
+                for f in facts_at(ctx, tdd, bb):
+                    if f[0] == "variant" and og.strip(f[1]) == ("param", tdd.id, 1):
+                        storable.add(f[2])
+    if not storable or storable == allv:
+        rr.fail("status-table-undecided", "cannot tell which ConfirmationStatus variants `to_db_data` can store (found %s)" % sorted(storable), where=tdd.span)
+        return
+    rt = ctx.og.local(st, 0)
+    produced = {x[2] for x in og.walk(rt) if isinstance(x, tuple) and len(x) >= 3 and x[0] == "agg" and str(x[1]).endswith("ConfirmationStatus")}
+    if not produced:
+        produced = set(allv)
+    n = 0
+    for bid, b in P.bodies.items():
+        if not bid.startswith("teos::") or "::tests::" in bid:
+            continue
+        for u in sites(b, DBM + "update_tracker_status"):
+            a = og.strip(arg_origin(ctx, b, u, 2))
+            if isinstance(a, tuple) and a and a[0] == "agg" and str(a[1]).endswith("ConfirmationStatus"):
+                possible = {a[2]}
+            elif isinstance(a, tuple) and a and a[0] in ("call", "ret") and a[1] == CARRIER + "send_transaction":
+                possible = set(produced)
+                for f in facts_at(ctx, b, u):
+                    if f[0] == "variant_in" and og.strip(f[1]) == a:
+                        possible &= set(f[2])
+                    elif f[0] == "variant" and og.strip(f[1]) == a:
+                        possible &= {f[2]}
+            else:
+                possible = None
+            n += 1
+            if possible is not None and possible <= storable:
+                rr.ok("%s: stored status in %s, all storable" % (shortfn(bid), sorted(possible)), sample={"rule": rr.rule, "site": shortfn(bid), "status can be": sorted(possible), "storable": sorted(storable)})
+            elif possible is None:
+                rr.fail("status-origin-unknown:%s" % shortfn(bid), "`%s` stores a tracker status `%s` whose possible variants cannot be determined" % (shortfn(bid), og.show(a)[:100]), where=b.line_of(u))
+            else:
+                rr.fail("status-not-storable:%s" % shortfn(bid), "`%s` hands `update_tracker_status` the verdict of `Carrier::send_transaction` on a path where it can still be %s: `to_db_data` has no row for that, the update answers Err(MissingField) and the `unwrap` aborts the chain thread holding the carrier and database locks (the node answers -27 'already in block chain' whenever it is a block ahead of the tower: two blocks in one poll, a backlog after downtime) — and the restart replays the same block" % (shortfn(bid), sorted(possible - storable)), where=b.line_of(u))
+    if n < 3:
+        rr.fail("status-store-sites=%d" % n, "expected at least 3 update_tracker_status sites in the tower")
 
 
 def rule_OR2_gatekeeper(ctx, tier):
